@@ -28,6 +28,7 @@ SPELLINGS = {
     # (None next to collection values is avoided here: the dependency ignores `None` when a whole-mapping
     #  assignment replaces a nested collection - reported separately as a C04 finding by a scripted scenario)
 }
+SPELLINGS["wide"] = ({"a": ("a",), "b": ("n", "x"), "c": ("c",), "d": ("Ünï",)}, {"i0": 0, "i1": "x", "i2": [1, 2.5, {"k": None}]})
 DOCS = {"d0": {}, "d1": {"x": 1}, "d2": {"x": 2.5, "n": {"y": [1, "two", None]}}}
 FILES = {"f1": "data.txt", "f2": os.path.join("sub", "inner.bin")}
 FVALS = {"c1": b"payload-one\n", "c2": b"\x00\x01payload-two" * 3}
